@@ -20,6 +20,8 @@ META = {}
 # whether a program is linear is decided by TLC only.
 
 TERMINATORS = ("break", "continue", "return", "panic")
+# renderings of a move inside a conditionally evaluated operand / argument list (same statement in the model)
+LIN_CMOVE_FORMS = ["and", "or", "coal", "cond", "optmove", "optcall", "optarr", "optcond"]
 
 
 def _exits(block):
@@ -265,7 +267,8 @@ def lin_family_loopjump():
                     for shape in ("then", "else", "elseif-then", "elseif-else", "iflet-then", "iflet-else"):
                         for noelse in ((False, True) if shape == "then" else (False,)):
                             for after in ("destroy", "consume", "move", "use-destroy", "none",
-                                          "cmove-and", "cmove-or", "cmove-coal", "cmove-cond", "cmove-destroy"):
+                                          "cmove-and", "cmove-or", "cmove-coal", "cmove-cond", "cmove-optmove", "cmove-optcall",
+                                          "cmove-optarr", "cmove-optcond", "cmove-destroy"):
                                 body = [{"t": "decl", "x": "v0", "k": kind}]
                                 if shape == "then":
                                     body.append({"t": "if", "then": jb, "else": [], "noelse": noelse})
@@ -367,7 +370,7 @@ def _vary(body, rng):
         elif t == "use" and rng.random() < 0.3:
             s["form"] = "ref"
         elif t == "cmove":
-            s["form"] = rng.choice(["and", "or", "coal", "cond"])
+            s["form"] = rng.choice(LIN_CMOVE_FORMS)
         elif t in ("if", "iflet") and not s["else"] and rng.random() < 0.5:
             s["noelse"] = True
         elif t == "move" and s.get("form") == "var" and rng.random() < 0.3:
@@ -685,7 +688,7 @@ def lin_mutate(body, rng):
         if cons:
             s = rng.choice(cons)
             s["t"] = "cmove"
-            s["form"] = rng.choice(["and", "or", "coal", "cond"])
+            s["form"] = rng.choice(LIN_CMOVE_FORMS)
     else:                                         # plain assignment between two variables of one kind (always an overwrite)
         decls = []
         _walk(body, lambda s: decls.append((s["x"], s["k"])) if s["t"] == "decl" else None)
